@@ -396,7 +396,9 @@ where
 
         // Return error if versions don't match
         if self.protocol_version != packet_version {
-            return vec![GenericEvent::NotifyError(MqttError::VersionMismatch)];
+            let mut events = vec![GenericEvent::NotifyError(MqttError::VersionMismatch)];
+            self.release_refused_packet_id(&packet, &mut events);
+            return events;
         }
 
         match packet {
@@ -447,28 +449,56 @@ where
                 if role_id == client_id || role_id == any_id {
                     self.process_send_v3_1_1_subscribe(p)
                 } else {
-                    vec![GenericEvent::NotifyError(MqttError::PacketNotAllowedToSend)]
+                    let mut events =
+                        vec![GenericEvent::NotifyError(MqttError::PacketNotAllowedToSend)];
+                    let packet_id = p.packet_id();
+                    if self.pid_man.is_used_id(packet_id) {
+                        self.pid_man.release_id(packet_id);
+                        events.push(GenericEvent::NotifyPacketIdReleased(packet_id));
+                    }
+                    events
                 }
             }
             GenericPacket::V5_0Subscribe(p) => {
                 if role_id == client_id || role_id == any_id {
                     self.process_send_v5_0_subscribe(p)
                 } else {
-                    vec![GenericEvent::NotifyError(MqttError::PacketNotAllowedToSend)]
+                    let mut events =
+                        vec![GenericEvent::NotifyError(MqttError::PacketNotAllowedToSend)];
+                    let packet_id = p.packet_id();
+                    if self.pid_man.is_used_id(packet_id) {
+                        self.pid_man.release_id(packet_id);
+                        events.push(GenericEvent::NotifyPacketIdReleased(packet_id));
+                    }
+                    events
                 }
             }
             GenericPacket::V3_1_1Unsubscribe(p) => {
                 if role_id == client_id || role_id == any_id {
                     self.process_send_v3_1_1_unsubscribe(p)
                 } else {
-                    vec![GenericEvent::NotifyError(MqttError::PacketNotAllowedToSend)]
+                    let mut events =
+                        vec![GenericEvent::NotifyError(MqttError::PacketNotAllowedToSend)];
+                    let packet_id = p.packet_id();
+                    if self.pid_man.is_used_id(packet_id) {
+                        self.pid_man.release_id(packet_id);
+                        events.push(GenericEvent::NotifyPacketIdReleased(packet_id));
+                    }
+                    events
                 }
             }
             GenericPacket::V5_0Unsubscribe(p) => {
                 if role_id == client_id || role_id == any_id {
                     self.process_send_v5_0_unsubscribe(p)
                 } else {
-                    vec![GenericEvent::NotifyError(MqttError::PacketNotAllowedToSend)]
+                    let mut events =
+                        vec![GenericEvent::NotifyError(MqttError::PacketNotAllowedToSend)];
+                    let packet_id = p.packet_id();
+                    if self.pid_man.is_used_id(packet_id) {
+                        self.pid_man.release_id(packet_id);
+                        events.push(GenericEvent::NotifyPacketIdReleased(packet_id));
+                    }
+                    events
                 }
             }
             // SUBACK/UNSUBACK - Server/Any can send
@@ -1231,6 +1261,30 @@ where
     }
 
     // private
+
+    /// Release the packet ID carried by an exchange-initiating packet whose send was refused
+    /// before reaching its process_send_* function (version mismatch)
+    fn release_refused_packet_id(
+        &mut self,
+        packet: &GenericPacket<PacketIdType>,
+        events: &mut Vec<GenericEvent<PacketIdType>>,
+    ) {
+        let packet_id = match packet {
+            GenericPacket::V3_1_1Publish(p) => p.packet_id(),
+            GenericPacket::V5_0Publish(p) => p.packet_id(),
+            GenericPacket::V3_1_1Subscribe(p) => Some(p.packet_id()),
+            GenericPacket::V5_0Subscribe(p) => Some(p.packet_id()),
+            GenericPacket::V3_1_1Unsubscribe(p) => Some(p.packet_id()),
+            GenericPacket::V5_0Unsubscribe(p) => Some(p.packet_id()),
+            _ => None,
+        };
+        if let Some(packet_id) = packet_id {
+            if self.pid_man.is_used_id(packet_id) {
+                self.pid_man.release_id(packet_id);
+                events.push(GenericEvent::NotifyPacketIdReleased(packet_id));
+            }
+        }
+    }
 
     /// Initialize connection state based on client/server role
     ///
